@@ -200,6 +200,10 @@ func genBatch(t *rapid.T) Case {
 			} else {
 				ms = append(ms, gen.NthMember(rapid.IntRange(0, gen.ProductSize()-1).Draw(t, "m")))
 			}
+			if rapid.IntRange(0, 14).Draw(t, "barerpc") == 0 {
+				// the shortest reserved name: withheld from the assigner like any rpc.* name
+				ms[len(ms)-1] = rapid.SampledFrom([]string{`{"jsonrpc":"2.0","id":9,"method":"rpc."}`, `{"jsonrpc":"2.0","method":"rpc."}`}).Draw(t, "barerpcv")
+			}
 		}
 		ws := rapid.SampledFrom([]string{"", " ", "\n", "\r\n\t "}).Draw(t, "ws")
 		c.Records = append(c.Records, engine.Bytes(ws+"["+strings.Join(ms, ","+ws)+"]"+ws))
